@@ -101,10 +101,11 @@ type C11PSOp struct {
 }
 
 type C11Op struct {
-	Kind  string // add union inter sub subcopy copy makeall makenone
+	Kind  string // add union inter sub subcopy copy makeall makenone resolve
 	A, B  int
 	Proto int
 	PS    []C11PSOp
+	N     int `json:",omitempty"` // resolve: index into c11Pool of the number the name stands for
 }
 
 type C11Case struct {
@@ -160,6 +161,11 @@ func genC11(t *rapid.T) *C11Case {
 		if op.Kind == "add" {
 			op.Proto = rapid.IntRange(0, 2).Draw(t, "proto")
 			op.PS = c11GenPS(t, c.Mode == "named")
+		}
+		if c.Mode == "named" && rapid.IntRange(0, 5).Draw(t, "resolve") == 0 {
+			// a held port name is resolved for a pod: replaced by the number it stands for there (the one caller never
+			// passes NoPort, which would leave an entry without ports behind - outside the domain)
+			op = C11Op{Kind: "resolve", A: op.A, B: op.B, N: rapid.IntRange(0, len(c11Pool)-1).Draw(t, "resolven")}
 		}
 		c.Ops = append(c.Ops, op)
 	}
@@ -433,6 +439,60 @@ func checkC11(c *C11Case, st *VStats) *VFailure {
 			models[a] = &m
 			if !vars[a].Equal(vars[b]) || vars[a].String() != vars[b].String() || c11Snap(vars[a]) != c11Snap(vars[b]) {
 				return vfail("%s: Copy is not equal to its original (names lost?): %q vs %q", step, c11Snap(vars[a]), c11Snap(vars[b]))
+			}
+		case "resolve":
+			// ReplaceNamedPortWithMatchingPortNum as its caller uses it: for a name the set holds, on that protocol
+			type pn struct {
+				p v1.Protocol
+				n string
+			}
+			var held []pn
+			for p, names := range vars[a].GetNamedPorts() {
+				for _, n := range names {
+					held = append(held, pn{p, n})
+				}
+			}
+			if len(held) == 0 {
+				continue
+			}
+			sort.Slice(held, func(i, j int) bool {
+				if held[i].p != held[j].p {
+					return held[i].p < held[j].p
+				}
+				return held[i].n < held[j].n
+			})
+			h := held[op.B%len(held)]
+			num := int32(NoPort)
+			if op.N >= 0 {
+				num = int32(c11Pool[op.N%len(c11Pool)])
+			}
+			vars[a].ReplaceNamedPortWithMatchingPortNum(h.p, h.n, num)
+			for pi, p := range c11Prots {
+				if p == h.p && num != NoPort {
+					models[a].setRange(pi, int(num), int(num))
+				}
+			}
+			step += fmt.Sprintf(" %s/%s -> %d", h.p, h.n, num)
+			for p, names := range vars[a].GetNamedPorts() {
+				for _, n := range names {
+					if p == h.p && n == h.n {
+						return vfail("%s: the name is still held after it was replaced by its number: %q (%s)", step, vars[a].String(), c11Snap(vars[a]))
+					}
+				}
+			}
+			if strings.Contains(vars[a].String(), h.n) {
+				// (names of the pool are not substrings of protocol names or of each other)
+				stillOther := false
+				for p, names := range vars[a].GetNamedPorts() {
+					for _, n := range names {
+						if n == h.n && p != h.p {
+							stillOther = true
+						}
+					}
+				}
+				if !stillOther {
+					return vfail("%s: the set still PRINTS the name that was replaced by its number: %q", step, vars[a].String())
+				}
 			}
 		case "makeall":
 			vars[a] = MakeConnectionSet(true)
